@@ -801,5 +801,8 @@ Ops_MembershipCore == Ops_Membership \ {"UpdateRemoteMessageID", "MarkMessageAsD
 Ops_MailboxThree == Ops_Mailbox \ {"AddPermFlagsToAllMailboxes", "GetMailboxPermanentFlags", "AddFlagsToAllMailboxes", "GetMailboxFlags",
   "GetMailboxAttributes", "SetMailboxUIDValidity", "StoreConnectorSettings", "GetConnectorSettings", "AddDeletedSubscription",
   "RemoveDeletedSubscriptionWithName"}
+\* the remote id of a message that is shown in several mailboxes (every mailbox table keeps a copy of it)
+Ops_RemoteID == Ops_Tx \cup {"CreateMailbox", "CreateMessages", "AddMessagesToMailbox", "RemoveMessagesFromMailbox", "UpdateRemoteMessageID",
+  "GetMailboxMessageIDPairs", "GetMailboxMessageForNewSnapshot", "GetMessageRemoteID", "GetMessageIDFromRemoteID"}
 Ops_TwoBox == Ops_MembershipCore \ {"ClearRecentFlagInMailboxOnMessage", "ClearRecentFlagsInMailbox", "SetMailboxMessagesDeletedFlag"}
 =============================================================================
